@@ -13,7 +13,7 @@ CHECK = dict(
     ],
     units=[
         dict(name="filterstorage", dir=D, src="C13/filterstorage", runs=[
-            dict(name="grid", run="^TestVerifC13FaultGrid$", quick=0, thorough=0, shards_quick=4, shards_thorough=4, timeout=600),
+            dict(name="grid", run="^TestVerifC13FaultGrid$", quick=0, thorough=0, shards_quick=5, shards_thorough=5, timeout=600),
             dict(name="faults", run="^TestVerifC13FaultSequences$", quick=300, thorough=6000,
                  shards_quick=3, shards_thorough=8, timeout_quick=300, timeout_thorough=1500),
             dict(name="crash", run="^TestVerifC13CrashPoints$", quick=40, thorough=600,
